@@ -91,6 +91,11 @@ def directed_cases():
                     chain = [{"invs": [1] if i == inv_at else [], "init": None} for i in range(n)]
                     if not wrapped_new_below_init(chain, new_at, mixin_at):
                         out.append({"chain": chain, "need": [[1, 0]], "k": n - 1, "new_at": new_at, "mixin_at": mixin_at})
+    # data structures on top of a built-in type (no constructor of their own: list.__init__ fills the instance)
+    for n in (1, 2):
+        for inv_at in range(n):
+            chain = [{"invs": [1] if i == inv_at else [], "init": None} for i in range(n)]
+            out.append({"chain": chain, "need": [[1, 0]], "k": n - 1, "builtin": "list"})
     return out
 
 
@@ -124,7 +129,8 @@ def script_of(c):
     for i, cd in enumerate(c["chain"]):
         for cid in reversed(cd["invs"]):
             L.append("@icontract.invariant(lambda self: getattr(self, '_stage', 0) >= need[%d])" % cid)
-        L.append("class L%d(%s%s):" % (i, "L%d" % (i - 1) if i else "icontract.DBC", ", Side" if c.get("mixin_at") == i else ""))
+        L.append("class L%d(%s%s%s):" % (i, "list, " if i == 0 and c.get("builtin") == "list" else "",
+                                         "L%d" % (i - 1) if i else "icontract.DBC", ", Side" if c.get("mixin_at") == i else ""))
         if c.get("new_at") == i:
             L.append("    def __new__(cls, x=None): return super().__new__(cls)")
         if cd["init"] is None:
@@ -137,7 +143,8 @@ def script_of(c):
             if not cd["init"]:
                 L.append("        pass")
         L.append("")
-    L.append("L%d(%s)" % (c["k"], "7" if c.get("new_at") is not None and c["new_at"] <= c["k"] else ""))
+    L.append("L%d(%s)" % (c["k"], "[1, 2, 3]" if c.get("builtin") else
+                          ("7" if c.get("new_at") is not None and c["new_at"] <= c["k"] else "")))
     return "\n".join(L)
 
 
